@@ -10,7 +10,8 @@
      ValuesManager.register_value_producer 298-330,
        _register_value_producer 332-352                     -> [register_producer]
      ValuesManager.register_value_modifier 354-397          -> [register_modifier]
-     ValuesManager.get_value 399-414                        -> [get_value]
+     ValuesManager.get_value 399-419                        -> [get_value]  (since fix 74bd7d49 it also sets
+                                                               pipeline.name - the name is not part of this model)
 
    Part 1 is generic: callables are Section variables (pure functions) and evaluation LOGS every call of a callable
    together with the arguments it received, so that "exactly once", "in registration order", "previous stage's output
@@ -377,11 +378,13 @@ Definition ev_eqb (x y : ev carg catom) : bool :=
   | _, _ => false
   end.
 
-(* |f - x| <= 4 ulp(f), all exact *)
+(* |f - x| <= 4 ulp(f), all exact; a float zero only for an exact zero (0.0 has no meaningful ulp) *)
 Definition within4 (f : fl) (x : q) : bool :=
   let fq := fl_q f in let u := fl_ulp f in
   (* |fn/fd - xn/xd| <= 4 un/ud   <=>   |fn*xd - xn*fd| * ud <= 4 * un * fd * xd   (positive denominators) *)
-  (0 <? snd x) && (Z.abs (fst fq * snd x - fst x * snd fq) * snd u <=? 4 * fst u * snd fq * snd x).
+  (0 <? snd x) &&
+  (if fst f =? 0 then fst x =? 0
+   else Z.abs (fst fq * snd x - fst x * snd fq) * snd u <=? 4 * fst u * snd fq * snd x).
 Fixpoint within4_list (fs : list fl) (xs : list q) : bool :=
   match fs, xs with
   | [], [] => true
